@@ -785,14 +785,17 @@ RVReply(m) ==
        IF m.reply.term > m.req.term THEN
           LET s2 == BecomeFollower(s1, m.reply.term, "rvr") IN
           /\ ns' = [ns EXCEPT ![n] = Fin(s, s2)] /\ net' = net \ {m} /\ Hist1(n, s2) /\ UNCHANGED budget
-       ELSE IF Quorum(s1, c1) /\ s1.role = "P" THEN
+       ELSE IF Quorum(s1, c1) /\ s1.role = "P" /\ m.req.pre THEN
           \* prevote won: candidate at once (Gen: the contact has lapsed), real round spawned
           LET s2 == [BecomeCandidate(s1, n) EXCEPT !.pwon = m.req.term]
               r == VoteRound(s2, n) IN
           /\ s2.term <= MaxTerm
           /\ Cardinality(net) - 1 + Cardinality(r.ms) <= MaxNet
           /\ ns' = [ns EXCEPT ![n] = r.s] /\ net' = (net \ {m}) \cup r.ms /\ Hist1(n, r.s) /\ UNCHANGED budget
-       ELSE IF ~m.req.pre /\ Quorum(s1, c1) /\ s1.role = "C" THEN
+       \* (a late real vote can complete the quorum of the node's CURRENT term after its election
+       \* timed out and it went back to pre-candidate: the code makes it candidate and, in the same
+       \* critical section, leader of that term - found by replaying generated asynchronous behaviours)
+       ELSE IF ~m.req.pre /\ Quorum(s1, c1) /\ s1.role \in {"C", "P"} THEN
           LET s2 == BecomeLeader(s1, n) IN
           /\ ns' = [ns EXCEPT ![n] = Fin(s, s2)] /\ net' = net \ {m} /\ Hist1(n, s2) /\ UNCHANGED budget
        ELSE
